@@ -355,6 +355,20 @@ pub fn judge_c17(rec: &mut Recorder, c: &HistCase, ex: Exec, _hello: &Value) -> 
                 rec.nontrivial(&(li, s.t, &s.kind, t.addr, s.tramps.first().map(|x| x.0)));
             }
         }
+        // a block whose release failed is still executable memory: whatever scope exit wrote into
+        // it after the installation is a code modification like any other
+        for (addr, now) in &l.unreleased {
+            if let Some((_, was)) = l.steps.iter().flat_map(|s| s.tramps.iter()).find(|t| t.0 == *addr) {
+                rec.class("trampoline-that-could-not-be-released");
+                for i in 0..now.len().min(was.len()) {
+                    if now[i] != was[i] {
+                        if let Err(m) = flush_covers(&l.drop_log, addr + i as u64, now[i]) {
+                            return rec.fail(&sig("unreleased-trampoline-rewritten-without-flush"), format!("lifetime {li} ({} exit): the release of the trampoline at {addr:#x} failed, the block stays mapped and executable, and scope exit rewrote it ({:02x?} -> {:02x?}): {m}; case {c:?}", l.exit, &was[..16.min(was.len())], &now[..16.min(now.len())]));
+                        }
+                    }
+                }
+            }
+        }
         // restoration at scope exit
         for (ti, bytes, _) in &l.post {
             if let Some(before) = cur.get(ti) {
